@@ -1,5 +1,5 @@
 """C04 — temporal breakdown is an exact partition of the GPU activity span."""
-from harness.common import KCLASS, close, multisets, provenance, sand
+from harness.common import precalls, KCLASS, close, multisets, provenance, sand
 from oracles.intervals import union_len
 from symx import tracegen as TG
 from symx.engine import smax, smin
@@ -34,6 +34,10 @@ def skeletons(tier):
                 continue
             out.append({"id": f"r1-{w}", "ranks": {"0": w}})
     for w in ["C", "CN", "NC", "CCN"]:
+        if len(w) == 2:
+            # other analyses run first on the same object: their leftovers in the shared frames must not change the answer
+            for pre in ("kernels", "idle", "overlap"):
+                out.append({"id": f"r1-{w}-after-{pre}", "ranks": {"0": w}, "params": {"pre": [pre]}})
         out.append({"id": f"r1-{w}-stream0", "ranks": {"0": w}, "params": {"stream0": True}})
     pairs = [("C", "N"), ("CN", "M"), ("CC", "CM")] if tier == "quick" else [
         (a, b) for a in ["C", "N", "CN", "CC", "CM"] for b in ["C", "M", "CN", "NM"]]
@@ -68,6 +72,7 @@ def run(ctx):
     ranks, kinfo = build(ctx.sk)
     events = {r: ctx.val(ev) for r, ev in ranks.items()}
     ta = ctx.open(events)
+    precalls(ctx, ta)
     res = ta.get_temporal_breakdown(visualize=False)
     rk = [int(x) for x in ctx.cells(res["rank"])]
     ctx.prove(sorted(rk) == sorted(kinfo), "one-row-per-rank", {"ranks": rk})
